@@ -7,9 +7,13 @@ re-checked against what the code says now.  Control flow is NOT translated
 (it is hand-modelled and tied by the correspondence run); this is stated in
 DESIGN.md section 5.
 
-An item that can no longer be found raises TranslatorError; the caller treats
-that like a broken proof obligation.
+The extraction is done in independent steps, each producing a group of facts.  A step whose pattern can no longer be
+found does not stop the others: its facts are taken from the last good extraction (lean/Generated.good/facts.json), a line
+`TRANSLATOR-PARTIAL step=<name> facts=<a,b,..> users=<Cxx,..> : <what was not found>` is printed, and the check of every
+property listed in `users` treats that like a broken proof obligation (the theorems of the other properties do not
+depend on those facts; the model's use of them is tied by the correspondence run as always).
 """
+import json
 import os
 import re
 import sys
@@ -90,36 +94,69 @@ def extract_define(src, name, what=None):
     return _int(m.group(1))
 
 
-def extract_all(repo):
-    g = {}
-    tab, upd = extract_crc_table(repo)
-    g["crc32Tab"] = tab
-    g["crcUpdateExpr"] = upd
+ALL = [f"C{i:02d}" for i in range(1, 21)]
+CONTAINER = ["C03", "C04", "C05", "C06", "C17"]
+LIGHTS = ["C02", "C03", "C09"]
+POLY = ["C01", "C07", "C13", "C14", "C15", "C18"]
+TRAJ = ["C01", "C07", "C08", "C12", "C13", "C14", "C15", "C16"]
 
+
+def step_crc(repo):
+    tab, upd = extract_crc_table(repo)
+    return {"crc32Tab": tab, "crcUpdateExpr": upd}
+
+
+def step_poly(repo):
+    g = {}
     poly = _strip_comments(_read(repo, "src/trajectory/poly.c"))
     m = _need(re.search(r"facs\s*\[[^\]]*\]\s*=\s*\{(.*?)\}\s*;", poly, re.S), "facs")
     g["facs"] = [_int(t) for t in m.group(1).split(",") if t.strip()]
     polyh = _read(repo, "include/skybrush/poly.h")
     g["maxPolyCoeffs"] = extract_define(_strip_comments(polyh), "SB_MAX_POLY_COEFFS")
+    return g
 
+
+def step_errors(repo):
     err = _strip_comments(_read(repo, "include/skybrush/error.h"))
-    g["errors"] = extract_enum(err, "sb_error_t", "sb_error_t")
+    return {"errors": extract_enum(err, "sb_error_t", "sb_error_t")}
 
+
+def step_container_enums(repo):
     binh = _strip_comments(_read(repo, "include/skybrush/formats/binary.h"))
-    g["blockTypes"] = extract_enum(binh, "sb_binary_block_type_t", "sb_binary_block_type_t")
-    g["features"] = extract_enum(binh, "sb_binary_header_feature_t", "sb_binary_header_feature_t")
+    return {"blockTypes": extract_enum(binh, "sb_binary_block_type_t", "sb_binary_block_type_t"),
+            "features": extract_enum(binh, "sb_binary_header_feature_t", "sb_binary_header_feature_t")}
 
+
+def step_crc_pass(repo):
+    g = {}
     binc = _strip_comments(_read(repo, "src/formats/binary.c"))
     m = _need(re.search(r"uint8_t\s+buf\s*\[\s*(\d+)\s*\]\s*;\s*uint32_t\s+checksum", binc), "crc chunk buffer")
     g["crcChunk"] = int(m.group(1))
-    m = _need(re.search(r"offset\s*==\s*0\s*&&\s*bytes_read\s*>=\s*(\d+)\s*\)\s*\{\s*((?:buf\[\d+\]\s*=\s*)+)0\s*;", binc), "crc field zeroing")
+    # the stored checksum is blanked in the first chunk: `buf[6] = buf[7] = buf[8] = buf[9] = 0;` or `memset(buf + 6, 0, 4);`
+    m = _need(re.search(r"offset\s*==\s*0\s*&&\s*bytes_read\s*>=\s*(\d+)\s*\)\s*\{\s*(?:((?:buf\[\d+\]\s*=\s*)+)0|memset\s*\(\s*buf\s*\+\s*(\d+)\s*,\s*0\s*,\s*(\d+)\s*\))\s*;", binc),
+              "crc field zeroing")
     g["crcZeroMinRead"] = int(m.group(1))
-    g["crcZeroIdx"] = sorted(int(x) for x in re.findall(r"buf\[(\d+)\]", m.group(2)))
-    m = _need(re.search(r'strncmp\s*\(\s*buf\s*,\s*"([^"]*)"\s*,\s*(\d+)\s*\)', binc), "magic")
+    if m.group(2):
+        g["crcZeroIdx"] = sorted(int(x) for x in re.findall(r"buf\[(\d+)\]", m.group(2)))
+    else:
+        g["crcZeroIdx"] = list(range(int(m.group(3)), int(m.group(3)) + int(m.group(4))))
+    return g
+
+
+def step_header(repo):
+    g = {}
+    binc = _strip_comments(_read(repo, "src/formats/binary.c"))
+    m = re.search(r'strncmp\s*\(\s*buf\s*,\s*"([^"]*)"\s*,\s*(\d+)\s*\)', binc) or \
+        re.search(r'memcmp\s*\(\s*buf\s*,\s*"([^"]*)"\s*,\s*(\d+)\s*\)', binc)
+    m = _need(m, "magic")
     g["magic"] = [ord(c) for c in m.group(1)][: int(m.group(2))]
     m = _need(re.search(r"parser->version\s*!=\s*(\d+)\s*&&\s*parser->version\s*!=\s*(\d+)", binc), "version test")
     g["versions"] = sorted([int(m.group(1)), int(m.group(2))])
+    return g
 
+
+def step_lights(repo):
+    g = {}
     cmds = _strip_comments(_read(repo, "src/lights/commands.h"))
     g["commands"] = extract_enum(cmds, "command_t", "command_t")
     cfg = _strip_comments(_read(repo, "src/lights/light_player_config.h"))
@@ -139,20 +176,32 @@ def extract_all(repo):
     g["addressBound"] = {"INT_MAX": 2147483647}.get(m.group(1))
     if g["addressBound"] is None:
         g["addressBound"] = _int(m.group(1))
+    return g
 
+
+def step_builder(repo):
+    g = {}
     bld = _strip_comments(_read(repo, "src/trajectory/builder.c"))
     g["builderHeaderLength"] = extract_define(bld, "HEADER_LENGTH")
     g["builderMaxDurationMsec"] = extract_define(bld, "MAX_DURATION_MSEC")
     m = _need(re.search(r"sb_buffer_extend_with_zeros\s*\(\s*&builder->buffer\s*,\s*(\d+)\s*\)", bld), "builder extend size")
     g["builderExtend"] = int(m.group(1))
+    return g
 
+
+def step_rth(repo):
     rth = _strip_comments(_read(repo, "src/rth_plan/rth_plan.c"))
-    g["rthMaxDuration"] = extract_define(rth, "MAX_DURATION")
+    return {"rthMaxDuration": extract_define(rth, "MAX_DURATION")}
 
+
+def step_yaw(repo):
     yaw = _strip_comments(_read(repo, "src/yaw_control/yaw_control.c"))
     _need(re.search(r"#\s*define\s+SIZE_OF_DELTA\s+\(\s*sizeof\(uint16_t\)\s*\+\s*sizeof\(int16_t\)\s*\)", yaw), "SIZE_OF_DELTA")
-    g["yawSizeOfDelta"] = 4
+    return {"yawSizeOfDelta": 4}
 
+
+def step_traj(repo):
+    g = {}
     traj = _strip_comments(_read(repo, "src/trajectory/trajectory.c"))
     m = _need(re.search(r"sb_parse_int16\([^;]*\)\s*%\s*(\d+)\s*;", traj), "angle modulus")
     g["angleModulus"] = int(m.group(1))
@@ -161,6 +210,53 @@ def extract_all(repo):
     m = _need(re.search(r"start_time_msec\s*/\s*([0-9.]+)f\s*;", traj), "msec per sec")
     g["msecPerSec"] = int(float(m.group(1)))
     return g
+
+
+# (step name, function, properties whose theorems or model semantics depend on the step's facts)
+STEPS = [
+    ("crc-table", step_crc, ["C05"]),
+    ("poly-tables", step_poly, POLY),
+    ("error-codes", step_errors, ALL),
+    ("container-enums", step_container_enums, CONTAINER),
+    ("crc-pass", step_crc_pass, ["C04", "C05", "C06"]),
+    ("file-header", step_header, CONTAINER),
+    ("light-player", step_lights, LIGHTS),
+    ("builder", step_builder, ["C12", "C16"]),
+    ("rth", step_rth, ["C11", "C12"]),
+    ("yaw", step_yaw, ["C08", "C10"]),
+    ("trajectory", step_traj, TRAJ),
+]
+
+
+def extract_all(repo, good=None):
+    """returns (facts, partial) where partial lists (step, fact names, users, message) for every step that fell back on `good`"""
+    g, partial = {}, []
+    for name, fn, users in STEPS:
+        try:
+            g.update(fn(repo))
+        except TranslatorError as e:
+            keys = GOOD_KEYS.get(name)
+            if good is None or keys is None or any(k not in good for k in keys):
+                raise
+            for k in keys:
+                g[k] = good[k]
+            partial.append((name, keys, users, str(e)))
+    return g, partial
+
+
+GOOD_KEYS = {
+    "crc-table": ["crc32Tab", "crcUpdateExpr"],
+    "poly-tables": ["facs", "maxPolyCoeffs"],
+    "error-codes": ["errors"],
+    "container-enums": ["blockTypes", "features"],
+    "crc-pass": ["crcChunk", "crcZeroMinRead", "crcZeroIdx"],
+    "file-header": ["magic", "versions"],
+    "light-player": ["commands", "maxLoopDepth", "numPyroChannels", "maxTriggerCount", "msPerUnit", "msPerUnitWaitUntil", "endedWakeup", "addressBound"],
+    "builder": ["builderHeaderLength", "builderMaxDurationMsec", "builderExtend"],
+    "rth": ["rthMaxDuration"],
+    "yaw": ["yawSizeOfDelta"],
+    "trajectory": ["angleModulus", "angleDivisor", "msecPerSec"],
+}
 
 
 def lean_list(vals, per_line=8):
@@ -219,18 +315,35 @@ def lean_str(s):
     return '"' + s.replace("\\", "\\\\").replace('"', '\\"') + '"'
 
 
+def _tuples(g):
+    """JSON gives lists where the extraction gives tuples: normalise for rendering"""
+    for k in ("errors", "blockTypes", "features", "commands"):
+        if k in g:
+            g[k] = [tuple(x) for x in g[k]]
+    return g
+
+
 def main():
     repo = os.environ.get("SB_REPO", "/repo")
     here = os.path.dirname(os.path.abspath(__file__))
     out = os.path.join(here, "..", "lean", "Sb", "Generated", "Tables.lean")
     if len(sys.argv) > 1:
         out = sys.argv[1]
+    good = None
     try:
-        g = extract_all(repo)
+        with open(os.path.join(here, "..", "lean", "Generated.good", "facts.json")) as f:
+            good = _tuples(json.load(f))
+    except (OSError, ValueError):
+        good = None
+    try:
+        g, partial = extract_all(repo, good)
     except TranslatorError as e:
         print(f"TRANSLATOR-ERROR: {e}")
         return 2
-    text = render(g)
+    if "--dump-facts" in sys.argv:
+        print(json.dumps(g, indent=0))
+        return 0
+    text = render(_tuples(g))
     os.makedirs(os.path.dirname(out), exist_ok=True)
     old = None
     if os.path.exists(out):
@@ -242,6 +355,8 @@ def main():
         print(f"translator: wrote {os.path.normpath(out)}")
     else:
         print("translator: unchanged")
+    for name, keys, users, msg in partial:
+        print(f"TRANSLATOR-PARTIAL step={name} facts={','.join(keys)} users={','.join(users)} : {msg}")
     return 0
 
 
